@@ -25,6 +25,20 @@ Ftp::ParseIpPort(const char *buf, const char *forceIp, Ip::Address &addr)
     if (n != 6 || p1 < 0 || p2 < 0 || p1 > 255 || p2 > 255)
         return false;
 
+    // sscanf("%d") wraps huge numbers into range; such components are never valid
+    for (const char *c = buf; *c; ++c) {
+        const char *digits = c;
+        while (xisdigit(*c))
+            ++c;
+        if (c - digits > 3)
+            return false; // each of the six components is at most 255
+        if (!*c)
+            break;
+    }
+
+    if (h1 < 0 || h2 < 0 || h3 < 0 || h4 < 0 || h1 > 255 || h2 > 255 || h3 > 255 || h4 > 255)
+        return false;
+
     if (forceIp) {
         addr = forceIp; // but the above code still validates the IP we got
     } else {
@@ -55,8 +69,8 @@ Ftp::ParseProtoIpPort(const char *buf, Ip::Address &addr)
     const char delim = *buf;
     const char *s = buf + 1;
     const char *e = s;
-    const int proto = strtol(s, const_cast<char**>(&e), 10);
-    if ((proto != 1 && proto != 2) || *e != delim)
+    const long proto = strtol(s, const_cast<char**>(&e), 10);
+    if ((proto != 1 && proto != 2) || e != s + 1 || *e != delim)
         return false;
 
     s = e + 1;
@@ -78,8 +92,10 @@ Ftp::ParseProtoIpPort(const char *buf, Ip::Address &addr)
         return false;
 
     s = e + 1; // skip port delimiter
-    const int port = strtol(s, const_cast<char**>(&e), 10);
-    if (port < 0 || *e != '|')
+    if (!xisdigit(*s))
+        return false; // no signs, blanks, or empty port
+    const long port = strtol(s, const_cast<char**>(&e), 10);
+    if (port < 1 || port > 65535 || *e != '|')
         return false;
 
     if (Config.Ftp.sanitycheck && port < 1024)
